@@ -191,6 +191,20 @@ class C09(C04):
             extra.append({"id": 0, "script": {"children": [{"self_exit": None, "ignore_all": True}],
                                               "spawn_fail": sorted({r.randint(0, 4)}) if r.random() < 0.3 else [], "signal_fail": [], "kill_fail": []},
                           "ops": ops, "waiters": 1, "tail": 1000})
+        # a respawn that fails (at grace expiry, at the process end within the grace period, at a plain restart), then a start that succeeds
+        # and a process that ends by itself or is stopped: nothing is spawned that no control asked for
+        ign = {"self_exit": None, "ignore_all": True}
+        for first in ("try_restart_with_signal", "restart_with_signal", "try_restart", "restart"):
+            for c0 in (ign, {"self_exit": None, "react": [[15, 20]], "default": None}):
+                for later in ({"self_exit": 40, "ignore_all": True}, ign):
+                    for fail in ([1], [1, 2]):
+                        op1 = {"at": 20, "op": first, "yield": True}
+                        if "with_signal" in first:
+                            op1.update(sig="Terminate", grace=50)
+                        ops = [{"at": 0, "op": "start", "yield": True}, op1, {"at": 150, "op": "start", "yield": True},
+                               {"at": 170, "op": "start", "yield": True}, {"at": 300, "op": "stop", "yield": True}, {"at": 400, "op": "run", "mark": 1, "yield": True}]
+                        extra.append({"id": 0, "script": {"children": [dict(c0), dict(later), dict(later), dict(later)], "spawn_fail": fail, "signal_fail": [], "kill_fail": []},
+                                      "ops": ops, "waiters": 1, "tail": 1000})
         return job_check(self, "thorough" if deep else tier, seed, monitor, extra)
 
 
